@@ -18,8 +18,9 @@ OVR = {
 
 
 def setup(I):
+    if not any(sym in I.m.funcs for sym in list(OVR)[:4]): raise Exception('no queue boundary function found in the IR (inlined?)')
     for sym, target in OVR.items():
-        if sym not in I.m.funcs: raise Exception('boundary function %s not found in the IR (inlined?)' % sym)
+        if sym not in I.m.funcs: continue          # not referenced by the current tree: nothing to intercept
         I.overrides[sym] = (lambda t: lambda I_, *a: I_.call(t, list(a[:2])))(target)
 
 
